@@ -13,7 +13,55 @@ import (
 	"sort"
 
 	"github.com/resonatehq/resonate/internal/app/subsystems/api/grpc/pb"
+	"google.golang.org/protobuf/proto"
+	"google.golang.org/protobuf/reflect/protoreflect"
 )
+
+// pbStates walks a gRPC reply (fields in declaration order, lists in order, maps by key) and
+// returns the name of every promise state it carries.
+func pbStates(m proto.Message) []string {
+	out := []string{}
+	if m == nil {
+		return out
+	}
+	want := pb.State_PENDING.Descriptor().FullName()
+	var walk func(protoreflect.Message)
+	walk = func(r protoreflect.Message) {
+		fds := r.Descriptor().Fields()
+		for i := 0; i < fds.Len(); i++ {
+			fd := fds.Get(i)
+			switch {
+			case fd.IsMap():
+				if fd.MapValue().Kind() != protoreflect.MessageKind {
+					continue
+				}
+				mp := r.Get(fd).Map()
+				keys := []string{}
+				mp.Range(func(k protoreflect.MapKey, _ protoreflect.Value) bool { keys = append(keys, k.String()); return true })
+				sort.Strings(keys)
+				for _, k := range keys {
+					walk(mp.Get(protoreflect.ValueOfString(k).MapKey()).Message())
+				}
+			case fd.IsList():
+				if fd.Kind() != protoreflect.MessageKind {
+					continue
+				}
+				l := r.Get(fd).List()
+				for j := 0; j < l.Len(); j++ {
+					walk(l.Get(j).Message())
+				}
+			case fd.Kind() == protoreflect.MessageKind:
+				if r.Has(fd) {
+					walk(r.Get(fd).Message())
+				}
+			case fd.Kind() == protoreflect.EnumKind && fd.Enum().FullName() == want:
+				out = append(out, string(fd.Enum().Values().ByNumber(r.Get(fd).Enum()).Name()))
+			}
+		}
+	}
+	walk(m.ProtoReflect())
+	return out
+}
 
 type recvSpec struct {
 	physical bool
@@ -360,6 +408,7 @@ type flags struct {
 	Claimed       bool  `json:"claimed"`
 	MesgType      string   `json:"-"`
 	Promises      []string `json:"-"`
+	States        []string `json:"-"` // the states of the promises of the reply, in rendering order
 	Completed     bool  `json:"completed"`
 	LocksAffected int64 `json:"locksAffected"`
 	TasksAffected int64 `json:"tasksAffected"`
@@ -400,15 +449,22 @@ func (r *lreq) grpc(ctx context.Context, c *clients) (flags, error) {
 	var f flags
 	switch r.op {
 	case "ReadPromise":
-		_, err := c.promises.ReadPromise(ctx, &pb.ReadPromiseRequest{Id: r.id})
+		res, err := c.promises.ReadPromise(ctx, &pb.ReadPromiseRequest{Id: r.id})
+		if err == nil {
+			f.States = pbStates(res)
+		}
 		return f, err
 	case "SearchPromises":
-		_, err := c.promises.SearchPromises(ctx, &pb.SearchPromisesRequest{Id: r.q, State: pbSearchState(r.state), Tags: r.tags, Limit: int32(r.limit)})
+		res, err := c.promises.SearchPromises(ctx, &pb.SearchPromisesRequest{Id: r.q, State: pbSearchState(r.state), Tags: r.tags, Limit: int32(r.limit)})
+		if err == nil {
+			f.States = pbStates(res)
+		}
 		return f, err
 	case "CreatePromise":
 		res, err := c.promises.CreatePromise(ctx, r.pbCreatePromise())
 		if err == nil {
 			f.Noop = res.GetNoop()
+				f.States = pbStates(res)
 		}
 		return f, err
 	case "CreatePromiseAndTask":
@@ -418,6 +474,7 @@ func (r *lreq) grpc(ctx context.Context, c *clients) (flags, error) {
 		})
 		if err == nil {
 			f.Noop = res.GetNoop()
+				f.States = pbStates(res)
 		}
 		return f, err
 	case "CompletePromise":
@@ -426,18 +483,21 @@ func (r *lreq) grpc(ctx context.Context, c *clients) (flags, error) {
 			res, err := c.promises.RejectPromise(ctx, &pb.RejectPromiseRequest{Id: r.id, IdempotencyKey: r.ikey, Strict: r.strict, Value: r.pbValue()})
 			if err == nil {
 				f.Noop = res.GetNoop()
+				f.States = pbStates(res)
 			}
 			return f, err
 		case "REJECTED_CANCELED":
 			res, err := c.promises.CancelPromise(ctx, &pb.CancelPromiseRequest{Id: r.id, IdempotencyKey: r.ikey, Strict: r.strict, Value: r.pbValue()})
 			if err == nil {
 				f.Noop = res.GetNoop()
+				f.States = pbStates(res)
 			}
 			return f, err
 		default:
 			res, err := c.promises.ResolvePromise(ctx, &pb.ResolvePromiseRequest{Id: r.id, IdempotencyKey: r.ikey, Strict: r.strict, Value: r.pbValue()})
 			if err == nil {
 				f.Noop = res.GetNoop()
+				f.States = pbStates(res)
 			}
 			return f, err
 		}
@@ -446,6 +506,7 @@ func (r *lreq) grpc(ctx context.Context, c *clients) (flags, error) {
 			Id: r.id, PromiseId: r.promiseId, RootPromiseId: r.rootPromiseId, Timeout: r.timeout, Recv: r.pbRecv()})
 		if err == nil {
 			f.Noop = res.GetNoop()
+				f.States = pbStates(res)
 		}
 		return f, err
 	case "CreateSubscription":
@@ -453,6 +514,7 @@ func (r *lreq) grpc(ctx context.Context, c *clients) (flags, error) {
 			Id: r.id, PromiseId: r.promiseId, Timeout: r.timeout, Recv: r.pbRecv()})
 		if err == nil {
 			f.Noop = res.GetNoop()
+				f.States = pbStates(res)
 		}
 		return f, err
 	case "ReadSchedule":
@@ -491,6 +553,7 @@ func (r *lreq) grpc(ctx context.Context, c *clients) (flags, error) {
 		res, err := c.tasks.ClaimTask(ctx, &pb.ClaimTaskRequest{Id: r.id, Counter: int32(r.counter), ProcessId: r.pid, Ttl: int32(r.ttl)})
 		if err == nil {
 			f.Claimed = res.GetClaimed()
+			f.States = pbStates(res)
 			f.MesgType = res.GetMesg().GetType()
 			for k := range res.GetMesg().GetPromises() {
 				f.Promises = append(f.Promises, k)
